@@ -33,9 +33,7 @@ func (c *Client) cancelQuery() error {
 	defer cancel()
 
 	// Not using c.buf to prevent data race.
-	b := proto.Buffer{
-		Buf: make([]byte, 1),
-	}
+	var b proto.Buffer
 	proto.ClientCodeCancel.Encode(&b)
 
 	var retErr error
